@@ -3,7 +3,8 @@
 //   half :x  through the C++ interface (below: mock()/mock(scope), MockExpectedCall, MockActualCall, MockSupport), every C entry
 //            point replaced by the C++ call its name and signature denote (withBoolParameters(n, int v) = withParameter(n, v != 0)).
 // Both use the reporter a user gets (C: the reporter installed by mock_c(); C++: the default MockFailureReporter), so a failure
-// leaves the test.  Observation per half: failure count, op at which the test was left, failure text, every value returned to
+// leaves the test.  Observation per half: failure count, how often the crash hook (UtestShell::setCrashMethod; reached through
+// UT_CRASH() by a reporter whose crashOnFailure flag is set) ran, op at which the test was left, failure text, every value returned to
 // the caller in canonical form (:kind payload, tagged with op index and field), the bytes of every output buffer.
 // Scenario grammar: see checks/C19.py.
 #include "CppUTest/TestHarness.h"
@@ -21,8 +22,9 @@ static std::vector<c19_op> ops;
 static std::deque<std::string> arena;
 static std::deque<std::vector<unsigned char>> outs;
 
-struct Rec { int at = 0; int bad = 0; std::vector<std::string> vals; };
+struct Rec { int at = 0; int bad = 0; unsigned crashes = 0; std::vector<std::string> vals; };
 static Rec rec;
+static void crashHook() { rec.crashes++; }      // instead of aborting: count, and let the terminator leave the test
 static std::string fieldAt(int i) { return (i >= 0 && i < (int)ops.size()) ? std::string(1, ops[i].table) + "." + ops[i].field : std::string("?"); }
 static bool signedKind(const char* k) { return !strcmp(k, "i0") || !strcmp(k, "i2") || !strcmp(k, "i4"); }
 extern "C" {
@@ -283,7 +285,8 @@ static void cleanup()
 {
     mock().clear();
     mock_c()->removeAllComparatorsAndCopiers();   // frees the C adaptor nodes and empties the repository (C++ half: only the latter)
-    mock().crashOnFailure(false);
+    mock_c()->crashOnFailure(0);                  // the flag of the C layer's reporter ...
+    mock().crashOnFailure(false);                 // ... and of the standard reporter (mock() selects it again)
     mock("", nullptr);
 }
 static void half(Out& o, void (*body)())
@@ -300,6 +303,7 @@ static void half(Out& o, void (*body)())
     }
     cleanup();
     o << hx(failures);
+    o << hx(rec.crashes);
     if (rec.at >= c19.n) o << "~"; else o << hx((unsigned)rec.at);
     o << (failures ? hbytes(text.data(), text.size()) : std::string("~"));
     o << hx(rec.vals.size());
@@ -315,6 +319,7 @@ int main()
     Toks t; Out o;
     setvbuf(stdout, NULL, _IOLBF, 0);
     initPools();
+    UtestShell::setCrashMethod(crashHook);
     while (readline(t)) {
         ops.clear(); arena.clear(); outs.clear();
         while (!t.end()) {
